@@ -101,6 +101,21 @@ def gen_program(rng, cid):
         if r < 0.28:
             sql, ml = c14.gen_set(rng)
             prog.append(("set", b"\x03" + sql.encode(), ml, sql))
+        elif r < 0.31:
+            # the same SET text on several connections, whose meaning depends on each connection's own state
+            v1, v2, vals = rng.choice([
+                ("character_set_results", "character_set_connection", ["latin1", "utf8", "ascii", "cp1251"]),
+                ("sql_mode", "default_storage_engine", ["e1", "e2", "e3", "e4"]),
+                ("init_connect", "sql_mode", ["m1", "m2", "m3", "m4"]),
+                ("collation_connection", "collation_database", ["c1", "c2", "c3", "c4"]),
+                ("max_execution_time", "net_buffer_length", ["11", "22", "33", "44"]),
+            ])
+            mine = vals[cid % len(vals)]
+            lit = mine if mine.isdigit() else "'%s'" % mine
+            tok = ("i" + mine) if mine.isdigit() else ("s" + mine.encode().hex())
+            prog.append(("set", ("SET %s = %s" % (v2, lit)).encode().join([b"\x03", b""]), "var set V|S|%s|%s" % (v2, tok), "SET %s = %s" % (v2, lit)))
+            prog.append(("set", ("SET %s = @@%s" % (v1, v2)).encode().join([b"\x03", b""]), "var set R|%s|%s" % (v1, v2), "SET %s = @@%s" % (v1, v2)))
+            prog.append(("get", b"\x03" + ("SELECT @@%s" % v1).encode(), "var get " + v1, v1, mine))
         elif r < 0.36:
             nm = c14.gen_name(rng)
             prog.append(("get", b"\x03" + ("SELECT @@%s" % nm).encode(), "var get " + nm, nm))
@@ -341,6 +356,10 @@ async def case(chk, rng, idx):
                 got = classify_step(step, resp or [], capslist[i])
             except (Bad, IndexError, struct.error, KeyError) as e:
                 got = "undecodable:%r" % (e,)
+            if kind == "get" and len(step) > 4 and got != ("val", step[4]):
+                # by construction this connection has just copied its own value of the referenced variable
+                chk.fail("a connection read a variable value that stems from another connection's state",
+                         dict(desc, connection=i, statement="SELECT @@%s after SET ... = @@..." % step[3]), dict(got=got, own_value=step[4]))
             lines.append("@%d %s" % (idx * 8 + i + 1, step[2]))
             impl.append((step, got))
             descs.append(dict(desc, connection=i, step=(kind, step[3] if kind in ("set", "get") else step[2])))
